@@ -80,12 +80,25 @@ def dec(v):
         raise ValueError(v)
     if isinstance(v, list):
         return [dec(x) for x in v]
-    # labels handed to xgi are *equal* to the ones it already holds but never the same object
-    # (code that compares with `is` instead of `==` must not get away with it)
-    if type(v) is str and v:
+    return fresh(v)
+
+
+def fresh(v):
+    """an object equal to v but (where the interpreter allows it) not the same object: labels
+    handed to xgi are *equal* to the ones it already holds, never identical (code that compares
+    with `is` instead of `==` must not get away with it).  Small ints, None, bools and the empty
+    string are singletons and stay what they are."""
+    t = type(v)
+    if t is str and v:
         return (v + "\0")[:-1]
-    if type(v) is float:
+    if t is float:
         return v + 0.0 if v == v else v
+    if t is int and not -6 < v < 257:
+        return int(str(v))
+    if t is tuple:
+        return tuple(fresh(x) for x in v)
+    if t.__module__ == "numpy" and t.__name__.startswith(("int", "uint")):
+        return t(int(v))
     return v
 
 
@@ -109,3 +122,18 @@ def canon(v):
     if isinstance(v, float) and v != v:
         return "nan"
     return repr(v)
+
+
+def refresh(v):
+    """deep copy of a nested argument structure (dict / list / tuple / set) with fresh() atoms"""
+    if isinstance(v, dict):
+        return {refresh(k): refresh(x) for k, x in v.items()}
+    if isinstance(v, list):
+        return [refresh(x) for x in v]
+    if isinstance(v, tuple):
+        return tuple(refresh(x) for x in v)
+    if isinstance(v, (set, frozenset)):
+        return type(v)(refresh(x) for x in v)
+    if isinstance(v, Box):
+        return Box(refresh(x) for x in v.items)
+    return fresh(v)
